@@ -105,7 +105,13 @@ fn data_stmt(rng: &mut Rng) -> String {
 }
 
 fn token(rng: &mut Rng, after_identifier: bool) -> String {
-    match rng.below(14) {
+    match rng.below(15) {
+        // spellings that are one numeral in other dialects (exponents, type suffixes, radix prefixes) and, in the
+        // pinned one, a numeral glued to an identifier or an illegal character: whatever they tokenize to, the
+        // listing must read back as the same tokens
+        14 => rng
+            .pick(&["1E5", "1E2E5", "1.5E-3", "2E", ".1e10", "1E+2", "1D5", "12E", "1E2.5", "3E5X", "1.E1", "1e2e3", "5E 2", "1E-", "7E+", "1EE2", "0E0", "1E5$", "9E9("])
+            .to_string(),
         0..=3 => rng.pick(KEYWORDS).to_string(),
         4..=6 => rng.pick(PUNCT).to_string(),
         7..=8 => rng.pick(IDENTS).to_string(),
